@@ -120,11 +120,13 @@ def run_agm(pid, tier, seed, fams, mutants, rule, assumptions, sample=None, repl
             d["variant"] = (v0 + 11 * r) % 30
             # odd replicas of multi-thread cases: threads are frozen in the middle of machine steps (sched.py, MICRO MODE)
             d["micro"] = (1 + seed * 100003 + i) if (micro and r % 2 == 1 and len(c["prog"]["threads"]) > 1) else 0
+            # every second multi-thread case: all threads and nesting levels go through ONE shared grad / make_vjp / make_jvp object
+            d["shared_ops"] = bool(micro and len(c["prog"]["threads"]) > 1 and i % 2 == 1)
             cases.append(d)
     for i, c in enumerate(cases):
         c["id"] = i + 1
     # replay (the exported model result / den stay on this side; the worker gets id + prog + variant)
-    work = [{"id": c["id"], "prog": c["prog"], "variant": c["variant"], "micro": c.get("micro", 0),
+    work = [{"id": c["id"], "prog": c["prog"], "variant": c["variant"], "micro": c.get("micro", 0), "shared_ops": c.get("shared_ops", False),
              "schedule": c["sched"] if len(c["prog"]["threads"]) > 1 else []} for c in cases]
     traces, files = vlib.parallel_replay("agm_replay.py", work, nproc=14, tag="agm")
     accepted, g2, d2, _w, inv = vlib.parallel_validate("TraceAGM", files, cfg=TRACE_CFG, njvm=14)
@@ -262,7 +264,8 @@ def c14(tier, seed, replay=None):
     if replay:
         return _replay("C14", replay)
     q = tier == "quick"
-    fams = [("nd", 2, None), ("nest", 2, None), ("nestq", 3, 600) if q else ("nest", 3, 6000)]
+    # (fault family: the independence test must also survive differentiations that failed earlier in the same enclosing function)
+    fams = [("nd", 2, None), ("nest", 2, None), ("nestq", 3, 600) if q else ("nest", 3, 6000), ("fault", 2, None)]
     muts = [("nest", 2, MUT_DEP)]
     t0 = time.time()
     v1, cov = run_agm("C14", tier, seed, fams, muts,
